@@ -477,6 +477,7 @@ func init() {
 		Run:  func(rc *RuleCtx) { guardRule(rc, map[string]bool{"memfs": true, "orefafs": true}) }})
 	register(&Rule{ID: "C15.guard", Floor: 12,
 		Text: "guarded-by for MemIdm: the group maps and counter are accessed only under grpMu, the user maps and counter only under usrMu (6-line table), writes in W mode",
+		Also: []string{"C08"},
 		Run:  func(rc *RuleCtx) { guardRule(rc, map[string]bool{"memidm": true}) }})
 }
 
